@@ -1,10 +1,42 @@
 (* C05 — each batch is flushed once, highest priority first; every item is answered.
-   Statements only; proofs in proofs/MachineC05.v.  These are function-level theorems about the
-   model's _select_batch_to_flush / _continue_with_batch / BatchBase.flush for EVERY scheduler
-   state, priority assignment and oracle (set iteration order), plus the trace-level theorem
-   C05_each_batch_flushed_at_most_once for EVERY program (stored handles and synchronous re-entry
-   included), service behaviour, oracle and fuel. *)
-From Asynq Require Import Machine proofs.MachineC05 proofs.MachineTrace.
+   Statements only; proofs in proofs/MachineC05.v (function level), proofs/MachineTrace.v and
+   proofs/MachineC05T.v (trace level).
+
+   PROVED, function level (every scheduler state, priority assignment and oracle = set iteration
+   order): _select_batch_to_flush picks a scheduled, pending, non-empty batch of maximal priority
+   (C05_select_greatest_priority, C05_selected_batch_nonempty_pending) or none iff nothing is
+   eligible; a done batch is never flushed again; a flush answers every item; one scheduler flush is
+   before / body / item completions / after.
+
+   PROVED, trace level, for EVERY program (stored handles, synchronous re-entry), parameter record
+   (priorities, raising flush bodies, oracle), history and fuel, about snd (run_case P fuel ps):
+   - C05_each_batch_flushed_at_most_once: at most one EvFlush per batch (kind, index);
+   - C05_item_completed_at_most_once (T1): at most one EvItemDone per item;
+   - C05_scheduler_flush_only_while_waiting_step / _run (T2): an EvBefore (or EvAfter) is emitted only
+     by the transition from mode MAfterExec with innermost frame FWait root and root NOT computed -
+     for every configuration, and along a run with the index k < n of the emitting step.  Nested
+     synchronous calls have their own FWait frame, so this covers them;
+   - C05_trace_is_blocks (T3+T4): the chronological trace is a concatenation of tame events (no
+     EvBefore/EvAfter/EvFlush/EvItemDone), unbracketed flushes forced by item.value()
+     (EvFlush k i items; dones) and scheduler flushes
+     (EvBefore k i; EvFlush k i items; dones; EvAfter k i) with items <> [], where
+     served items dones: dones are completions of members of items only and every member has one;
+     corollaries C05_before_flush_after (every EvBefore is immediately followed by the EvFlush of
+     the same batch, non-empty, then exactly the completions of its items, then its EvAfter - also
+     when the flush body raises, see C05_after_fires_when_flush_raises), C05_after_closes_block,
+     C05_flush_serves_its_items, C05_item_completed_exactly_once_by_its_flush (an item of a flushed
+     batch has exactly one EvItemDone in the whole trace, among the completions of that flush),
+     C05_item_done_by_its_flush (every EvItemDone h lies in a flush whose item list contains h),
+     C05_brackets_at_most_once (EvBefore k i and EvAfter k i occur equally often and at most once);
+   - step-level invariants C05_blocks_invariant_step, C05_batch_items_invariant_step.
+   No generic statement had to be refuted.
+
+   NOT proved here: that the outcome carried by EvItemDone is the one the flush body set / the one
+   stored in the heap afterwards (function level only: MachineC05T.fx, by the definition of
+   flush_body), the greatest-priority choice as a trace property (the trace does not show the set of
+   pending batches; function level only, C05_select_greatest_priority), and a purely trace-level
+   form of T2 for run_case (T2 is stated on the configurations of [run]). *)
+From Asynq Require Import Machine proofs.MachineC05 proofs.MachineTrace proofs.MachineC05T.
 
 Theorem C05_select_greatest_priority : forall P s k s',
   select P s = (Some k, s') ->
@@ -60,3 +92,125 @@ Print Assumptions C05_each_batch_flushed_at_most_once.
 Theorem C05_flush_once_invariant_step : forall P c, FInv (c_st c) -> FInv (c_st (step P c)).
 Proof. exact FInv_step. Qed.
 Print Assumptions C05_flush_once_invariant_step.
+
+(* ------------------------------------------------------------------ trace level (proofs/MachineC05T.v) *)
+(* T1: every batch item is completed at most once *)
+Theorem C05_item_completed_at_most_once : forall P fuel ps h,
+  (cnt h (snd (run_case P fuel ps)) <= 1)%nat.
+Proof. exact run_case_item_done_at_most_once. Qed.
+Print Assumptions C05_item_completed_at_most_once.
+
+(* T2, step level, every configuration: a transition that emits EvBefore is the scheduler's flush
+   transition, taken only while the awaited computation is not complete *)
+Theorem C05_scheduler_flush_only_while_waiting_step : forall P c evs kind idx,
+  trace (c_st (step P c)) = evs ++ trace (c_st c) -> In (EvBefore kind idx) evs ->
+  c_mode c = MAfterExec /\ exists root fr, c_frames c = FWait root :: fr /\ computed root (c_st c) = false.
+Proof. exact step_before_only_when_waiting. Qed.
+Print Assumptions C05_scheduler_flush_only_while_waiting_step.
+
+(* the same for any bracket event (EvBefore or EvAfter) *)
+Theorem C05_bracket_events_only_from_scheduler_flush : forall P c evs e,
+  trace (c_st (step P c)) = evs ++ trace (c_st c) -> In e evs -> ~ plain e ->
+  c_mode c = MAfterExec /\ exists root fr, c_frames c = FWait root :: fr /\ computed root (c_st c) = false.
+Proof. exact step_bracket_origin. Qed.
+Print Assumptions C05_bracket_events_only_from_scheduler_flush.
+
+(* T2, run level: every EvBefore in the trace after n steps was already there or was emitted by step
+   number k < n from such a configuration *)
+Theorem C05_scheduler_flush_only_while_waiting_run : forall P n c0 kind idx,
+  In (EvBefore kind idx) (trace (c_st (run P n c0))) ->
+  In (EvBefore kind idx) (trace (c_st c0)) \/
+  exists k root fr evs,
+    (k < n)%nat /\ c_mode (run P k c0) = MAfterExec /\ c_frames (run P k c0) = FWait root :: fr /\
+    computed root (c_st (run P k c0)) = false /\
+    trace (c_st (run P (S k) c0)) = evs ++ trace (c_st (run P k c0)) /\ In (EvBefore kind idx) evs.
+Proof. exact run_before_origin. Qed.
+Print Assumptions C05_scheduler_flush_only_while_waiting_run.
+
+(* T3: the batch the scheduler picks is non-empty and neither flushed nor cancelled *)
+Theorem C05_selected_batch_nonempty_pending : forall P s k s1,
+  select P s = (Some k, s1) -> b_items (get_batch k s) <> [] /\ b_done (get_batch k s) = false.
+Proof. exact select_nonempty_pending. Qed.
+Print Assumptions C05_selected_batch_nonempty_pending.
+
+(* T3 + T4: the whole chronological trace is made of tame events, unbracketed flush blocks and
+   bracketed, non-empty scheduler flush blocks *)
+Theorem C05_trace_is_blocks : forall P fuel ps, blocks (snd (run_case P fuel ps)).
+Proof. exact run_case_blocks. Qed.
+Print Assumptions C05_trace_is_blocks.
+
+Theorem C05_before_flush_after : forall P fuel ps l1 l2 kind idx,
+  snd (run_case P fuel ps) = l1 ++ EvBefore kind idx :: l2 ->
+  exists items dones l3, l2 = EvFlush kind idx items :: dones ++ EvAfter kind idx :: l3 /\
+                         items <> [] /\ served items dones.
+Proof. exact run_case_before_flush_after. Qed.
+Print Assumptions C05_before_flush_after.
+
+Theorem C05_after_closes_block : forall P fuel ps l1 l2 kind idx,
+  snd (run_case P fuel ps) = l1 ++ EvAfter kind idx :: l2 ->
+  exists items dones l0, l1 = l0 ++ EvBefore kind idx :: EvFlush kind idx items :: dones /\
+                         items <> [] /\ served items dones.
+Proof. exact run_case_after_closes_block. Qed.
+Print Assumptions C05_after_closes_block.
+
+(* every flush body, bracketed or not, is followed by the completions of exactly its items
+   (served items dones = only completions of members of items, and every member has one) *)
+Theorem C05_flush_serves_its_items : forall P fuel ps l1 l2 kind idx items,
+  snd (run_case P fuel ps) = l1 ++ EvFlush kind idx items :: l2 ->
+  exists dones l3, l2 = dones ++ l3 /\ served items dones.
+Proof. exact run_case_flush_serves_its_items. Qed.
+Print Assumptions C05_flush_serves_its_items.
+
+(* every item of a flushed batch is completed exactly once in the whole trace, by that flush *)
+Theorem C05_item_completed_exactly_once_by_its_flush : forall P fuel ps l1 l2 kind idx items h,
+  snd (run_case P fuel ps) = l1 ++ EvFlush kind idx items :: l2 -> In h items ->
+  cnt h (snd (run_case P fuel ps)) = 1%nat /\
+  exists dones l3 o, l2 = dones ++ l3 /\ served items dones /\ In (EvItemDone h o) dones.
+Proof. exact run_case_item_exactly_once. Qed.
+Print Assumptions C05_item_completed_exactly_once_by_its_flush.
+
+Theorem C05_item_done_by_its_flush : forall P fuel ps l1 l2 h o,
+  snd (run_case P fuel ps) = l1 ++ EvItemDone h o :: l2 ->
+  exists kind idx items l0 dones, l1 = l0 ++ EvFlush kind idx items :: dones /\
+                                  In h items /\ Forall (done_in items) dones.
+Proof. exact run_case_item_done_by_its_flush. Qed.
+Print Assumptions C05_item_done_by_its_flush.
+
+Theorem C05_brackets_at_most_once : forall P fuel ps k,
+  (count_before k (snd (run_case P fuel ps)) <= 1)%nat /\
+  count_after k (snd (run_case P fuel ps)) = count_before k (snd (run_case P fuel ps)).
+Proof. exact run_case_brackets_at_most_once. Qed.
+Print Assumptions C05_brackets_at_most_once.
+
+(* the invariant behind T1/T3/T4 is preserved by every transition of the machine *)
+Theorem C05_blocks_invariant_step : forall P c, Inv (c_st c) -> Inv (c_st (step P c)).
+Proof. exact Inv_step. Qed.
+Print Assumptions C05_blocks_invariant_step.
+
+(* the heap invariant behind "every item is served": every member of a batch is a heap entry recording
+   that batch, without outcome while the batch is pending *)
+Theorem C05_batch_items_invariant_step : forall P c, dom (c_st c) -> BI (c_st c) -> BI (c_st (step P c)).
+Proof. exact BI_step. Qed.
+Print Assumptions C05_batch_items_invariant_step.
+
+(* non-vacuity: a scheduler flush, and one inside a synchronous call nested in a task *)
+Theorem C05_trace_example :
+  run_case (mkP [] 1000 false []) 100%nat [c05_demo1; c05_demo2] =
+  ([Some (Ok (VTuple [VInt 5; VInt 6])); Some (Ok (VInt 7))],
+   [EvStep [0] 0 (Ok VNone); EvBefore 0 0; EvFlush 0 0 [[1]; [2]];
+    EvItemDone [1] (Ok (VInt 5)); EvItemDone [2] (Ok (VInt 6)); EvAfter 0 0;
+    EvStep [0] 1 (Ok (VTuple [VInt 5; VInt 6])); EvDone [0] (Ok (VTuple [VInt 5; VInt 6])); EvSched 0 0 None;
+    EvStep [3] 0 (Ok VNone); EvStep [4] 0 (Ok VNone); EvBefore 0 1; EvFlush 0 1 [[5]];
+    EvItemDone [5] (Ok (VInt 7)); EvAfter 0 1; EvStep [4] 1 (Ok (VInt 7)); EvDone [4] (Ok (VInt 7));
+    EvGot [3] (Ok (VInt 7)); EvDone [3] (Ok (VInt 7)); EvSched 0 0 None]).
+Proof. exact c05_demo_trace. Qed.
+Print Assumptions C05_trace_example.
+
+(* the after event fires even when the flush body raises *)
+Theorem C05_after_fires_when_flush_raises :
+  snd (run_case (mkP [(0, mkK PDefault (Some (1, 77)))] 1000 false []) 100%nat [c05_demo1]) =
+  [EvStep [0] 0 (Ok VNone); EvBefore 0 0; EvFlush 0 0 [[1]; [2]];
+   EvItemDone [1] (Ok (VInt 5)); EvItemDone [2] (Err 77); EvAfter 0 0;
+   EvStep [0] 1 (Err 77); EvDone [0] (Err 77); EvSched 0 0 None].
+Proof. exact c05_demo_raise. Qed.
+Print Assumptions C05_after_fires_when_flush_raises.
